@@ -52,7 +52,7 @@ CHECKS = {
         text='Static analysis of structure only: every secret-holding type has a Drop that zeroizes the whole buffer on all paths via the zeroize crate; the context stores the secrets in those types; no forget/ManuallyDrop/leak on them; the temporary AEAD key and the by-value shared secret are only borrowed and dropped on every path of the key schedule. What memory really contains after drop (compiler copies, registers, the AEAD\'s own key schedule) is not decidable statically and not claimed.'),
     'C17': dict(
         technique='static analysis: compile matrix by the compiler itself over feature subsets, API-surface fact comparison, canonical-MIR identity of shared bodies across subsets',
-        text='The compiler type-checks the library for a pairwise-covering array of feature subsets (quick) or all 64 subsets x (lib, tests) plus examples/benches (thorough); the exported API surface of each analysed subset equals the expected table (in-place always, allocating iff alloc|std, each KEM iff its feature, std::error::Error iff std); every body shared between a subset and the all-features build has identical canonical MIR (or an identical view-erased provenance summary where only trait-method resolution differs), so there is no cfg-dependent code inside bodies. Running each subset\'s tests and comparing run-time outputs is not done (run-time).'),
+        text='The compiler type-checks the library for a pairwise-covering array of feature subsets (quick) or all 64 subsets x (lib, tests) plus examples/benches (thorough); the exported API surface of each analysed subset equals the expected table (in-place always, allocating iff alloc|std, each KEM iff its feature, std::error::Error iff std); every body shared between a subset and the all-features build has identical canonical MIR (or an identical view-erased provenance summary where only trait-method resolution differs), so there is no cfg-dependent code inside bodies; every concatenation buffer holds the largest pieces any enabled KEM/KDF/AEAD can put there (a KEM whose encapsulation runs out of buffer fails its own tests in every subset that enables it). Running each subset\'s tests and comparing run-time outputs is not done (run-time).'),
     'C18': dict(
         technique='static analysis: zero-count item enumerations with positive controls, callee allow/deny lists on resolved MIR calls, receiver/who-writes facts, RNG dataflow for the ephemeral key, compile-time Send+Sync+Freeze witnesses over all suites decided by rustc',
         text='Static analysis: no statics with state, thread-locals, interior mutability, or user unsafe anywhere in the crate; no ambient-state callee; export takes &self and writes nothing, all context writers take &mut self; the ephemeral key is derived from bytes drawn from the caller\'s RNG in the same call and that buffer has no other writer (iterator/closure writes included); no address-derived value (pointer-to-int cast, addr(), {:p}) exists anywhere; Send+Sync+Freeze of every public type for all AEAD x KDF x KEM combinations is decided by the type checker on a generated witness crate (with a non-vacuity twin). Data-race freedom and order independence then follow from Rust\'s guarantees for safe code; dependency crates are assumed free of hidden global state.'),
